@@ -42,10 +42,10 @@ def frameName : Frame → String
   | .addCalled _ mv => if mv then "addCalledM" else "addCalledC"
   | .addLocked _ => "addLocked" | .addRet _ => "addRet"
   | .sizeCalled => "sizeCalled" | .sizeLocked => "sizeLocked" | .sizeRet _ => "sizeRet"
-  | .dCalled i => if i then "dCalledI" else "dCalled"
-  | .dUnlock0 _ => "dUnlock0" | .dUnlock1 _ _ _ => "dUnlock1" | .dCb _ _ _ _ => "dCb" | .dInCb _ _ _ _ _ => "dInCb"
+  | .dCalled => "dCalled"
+  | .dUnlock0 => "dUnlock0" | .dUnlock1 _ _ => "dUnlock1" | .dCb _ _ _ _ => "dCb" | .dInCb _ _ _ _ _ => "dInCb"
   | .dClear _ _ _ th => if th then "dClearT" else "dClear"
-  | .dRelock _ _ => "dRelock" | .dUnlock2 _ => "dUnlock2"
+  | .dRelock _ => "dRelock" | .dUnlock2 => "dUnlock2"
   | .dRet r => if r.isSome then "dRet" else "dRetTmo"
   | .dying _ => "dying" | .inDt _ => "inDt"
   | .gCalled _ => "gCalled" | .gUnlockS _ _ _ => "gUnlockS" | .gSleep _ _ _ => "gSleep" | .gRelockS _ _ _ => "gRelockS"
@@ -54,7 +54,13 @@ def frameName : Frame → String
   | .xInner _ => "xInner" | .xYield _ => "xYield" | .xSleep _ => "xSleep" | .xInnerLast => "xInnerLast" | .xVec => "xVec"
   | .xRet => "xRet"
 
-def topName (fs : List Frame) : String := match fs with | [] => "idle" | f :: _ => frameName f
+def topName (fs : List Frame) : String :=
+  match fs with
+  | [] => "idle"
+  | .dCalled :: .gInner _ _ _ :: _ => "dCalledG"
+  | .dCalled :: .xInner _ :: _ => "dCalledX"
+  | .dCalled :: .xInnerLast :: _ => "dCalledXL"
+  | f :: _ => frameName f
 
 def evName : Ev → String
   | .new _ => "new" | .dup _ => "dup" | .drop _ => "drop" | .callAdd _ mv => if mv then "callAddM" else "callAddC"
@@ -71,7 +77,7 @@ def edge (s : St) (t : Tid) (e : Ev) : String :=
   s!"{topName (s.stk t)}/{evName e}/{after}"
 
 def descr (s : St) (t : Tid) : String :=
-  s!"stack={(s.stk t).map frameName} lock={s.lock} vec={s.vec} ecs={s.ecs} dead={s.dead} nfr={s.nfr}"
+  s!"stack={(s.stk t).map frameName} lock={s.lock} vec={s.vec} ecs={s.ecs} dead={s.dead} act={s.act} pend={s.pend}"
 
 def edges : List String := []
 
